@@ -39,7 +39,8 @@ func RunReplays(t *testing.T, fns map[string]func()) {
 			continue
 		}
 		status, msg := runOne(c, f)
-		fmt.Printf("VERIF-RESULT %d %s %q\n", i, status, msg)
+		RestoreOutput()
+		fmt.Fprintf(RealStdout, "VERIF-RESULT %d %s %q\n", i, status, msg)
 		if os.Getenv("VERIF_TRACE") != "" {
 			for _, l := range st.Trace {
 				fmt.Printf("VERIF-TRACE %d %s\n", i, l)
